@@ -78,9 +78,9 @@ func runTrim(samples []string, selected map[string]bool, follow *string) (res re
 			}
 		}
 		// reference Trim
-		mustCol := map[string]bool{}  // keeps a present cell
-		goneCol := map[string]bool{}  // every grid cell selected
-		after := newRefTable("\x00")  // remaining present cells
+		mustCol := map[string]bool{} // keeps a present cell
+		goneCol := map[string]bool{} // every grid cell selected
+		after := newRefTable("\x00") // remaining present cells
 		after.errs = ref.errs
 		for _, c := range gridCols {
 			all := true
